@@ -266,6 +266,14 @@ func createUniqueJobs(left, right IndividualNodes, options *IndividualNodesCompa
 			// identifier. All we can do in this case is to pick the first
 			// one.
 			if len(bs) > 0 {
+				// Another individual on the left may share the same unique
+				// identifier. Each individual can only be matched once, with
+				// whoever gets there first.
+				_, alreadySent := options.sentB.LoadOrStore(bs[0].Pointer(), nil)
+				if alreadySent {
+					continue
+				}
+
 				options.adjustTotal(totals)
 				ss := a.SurroundingSimilarity(bs[0], options.SimilarityOptions, true)
 
